@@ -664,6 +664,45 @@ func scrapeMetrics(addr string) scrape {
 	return s
 }
 
+// abandonedClients: clients send a complete, valid request and hang up before the answer (40-160 ms later, i.e.
+// while it is being proved or queued). What those clients did must not decide what the NEXT client gets: a valid
+// request sent afterwards must be proved, an unsatisfiable one get its error.
+func abandonedClients(o *cli.Opts, run *evid.Run, ks *keyset, srv *proc.Server, key string, waves int) {
+	if !run.Wants(key) {
+		return
+	}
+	r := gen.RNG(o.Seed, key)
+	for wave := 0; wave < waves; wave++ {
+		var wg sync.WaitGroup
+		for i := 0; i < 4; i++ {
+			rq := validRequest(r, ks)
+			hold := time.Duration(40+r.Intn(120)) * time.Millisecond
+			wg.Add(1)
+			go func() {
+				defer wg.Done()
+				conn, err := net.DialTimeout("tcp", srv.ProverAddr, 10*time.Second)
+				if err != nil {
+					return
+				}
+				fmt.Fprintf(conn, "POST /prove HTTP/1.1\r\nHost: %s\r\nContent-Type: application/json\r\nContent-Length: %d\r\n\r\n", srv.ProverAddr, len(rq.body))
+				conn.Write(rq.body)
+				time.Sleep(hold)
+				conn.Close()
+			}()
+		}
+		wg.Wait()
+		run.Add("abandoned_requests", 4)
+	}
+	for i, rq := range []*request{validRequest(r, ks), invalidBatchRequest(r, ks), validRequest(r, ks)} {
+		rs := send(srv.ProverAddr, rq, 3*time.Minute)
+		p := judgeResponse(ks, rq, rs)
+		if p != "" {
+			run.Violate(fmt.Sprintf("%s/after/%d/%s", key, i, rq.class), fmt.Sprintf("%s request (%s) sent after other clients hung up on their requests: %s", ks.mode, rq.class, p), map[string]any{"request_body": truncate(string(rq.body), 1500)})
+		}
+		run.Case(ks.mode+"/after-abandoned-clients", true, key+string(rq.body), p == "" && rs.status == 200, map[string]any{"class": rq.class, "status": rs.status})
+	}
+}
+
 // pendingUpload decides "a request is answered on its own, whatever another client is doing": client A has sent the
 // headers and the first half of a valid body and is INSIDE the handler (confirmed through the in-flight gauge); while
 // A's upload is pending, a valid, an unsatisfiable and a malformed request are sent and must all be answered; only then
